@@ -32,7 +32,7 @@ func chartWithCRD(v int, withHook, withCRD bool) *chart.Chart {
 	return c
 }
 
-// prepareHistory brings the world to one of: empty, 1:deployed, 1:deployed 2:failed
+// prepareHistory brings the world to one of: empty, 1:deployed, 1:deployed 2:failed, 1:uninstalled (kept)
 func prepareHistory(w *world, shape int) {
 	if shape == 0 {
 		return
@@ -52,11 +52,18 @@ func prepareHistory(w *world, shape int) {
 		}
 		w.f.budget, w.f.forceSite = 0, ""
 	}
+	if shape == 3 {
+		un := NewUninstall(w.config())
+		un.KeepHistory = true
+		if _, err := un.Run(relName); err != nil {
+			vFail("setup/uninstall")
+		}
+	}
 }
 
 func H06DryRun() {
 	w := newWorld(newFaultPlan(0, 0, "both"))
-	shape := ndChoice("history", 3)
+	shape := ndChoice("history", 4)
 	prepareHistory(w, shape)
 	before := histString(w.history())
 	clusterBefore := len(w.kube.cluster)
